@@ -80,6 +80,50 @@ for _p, _txt in (('C02', 'every dial of every generated spec must complete the h
         'level_note': W_NOTE, 'technique': W_TECH,
     }
 
+PROPS['C03'] = {
+    'level': 'fault_enumeration', 'budget': {'quick': 60, 'thorough': 900},
+    'parts': [{'sim': 'recvstream', 'mode': 'sweep', 'share': 1}, {'sim': 'recvstream', 'share': 3}],
+    'rule': 'bounded sweep: every arrival schedule (permutation, duplicate/re-split insertion, FIN placement, reader behaviour) of streams of <= 5 segments over a 6-cell offset lattice '
+            'with cells on both sides of the 128-byte copy threshold; plus seeded long histories (segments, reads, peeks, deadlines, CancelRead, RESET_STREAM / RESET_STREAM_AT, shutdown, adversarial frames) '
+            'against the real ReceiveStream + flow controllers, frameSorter and cryptoStream with a byte-array model and buffer poisoning; non-trivial = a fault or adversarial step fired; distinct = distinct abstract histories',
+    'real_vs_stub': 'real: ReceiveStream, frameSorter, cryptoStream(+manager), flow controllers, wire frame parser and its buffer pool; stub: peer, network, connection (model)',
+    'assumptions': ['8 independent histories are batched into one kernel scenario; evaluations counts scenarios'],
+    'level_text': 'exhaustive enumeration of fault schedules over a bounded segment lattice plus seeded search over long histories, byte-array reference model, buffer-reuse detection',
+    'level_note': K_NOTE, 'technique': K_TECH,
+}
+PROPS['C04'] = {
+    'level': 'exploration', 'budget': {'quick': 70, 'thorough': 1200},
+    'parts': [{'sim': 'flowcontrol', 'share': 2}, {'sim': 'transfer', 'share': 2, 'env': {'VERIF_ORACLES': 'C04'}}],
+    'rule': 'K:flowcontrol: seeded histories over real send- and receive-side controllers of 1-40 streams sharing a connection window, joined by a channel that loses, duplicates and reorders data and MAX_* updates, '
+            'with reads, abandons, auto-tuning at RTTs from microseconds to seconds, 0-RTT reset and an adversarial sender; W:transfer: wiretap checks that new stream bytes never exceed the credit delivered to the sender; '
+            'non-trivial = a fault fired; distinct = distinct abstract histories / wire traces',
+    'real_vs_stub': 'K: real flow controllers + RTT stats, model streams/channel; W: real endpoints, stub network',
+    'assumptions': [],
+    'level_text': 'seeded search over flow-control histories with a credit-accounting reference model (limits, conservation, liveness after the channel heals) and wire-level credit checks on whole connections',
+    'level_note': K_NOTE, 'technique': K_TECH,
+}
+PROPS['C16'] = {
+    'level': 'exploration', 'budget': {'quick': 50, 'thorough': 900},
+    'parts': [{'sim': 'connid'}],
+    'rule': 'seeded histories driving a real connIDManager and connIDGenerator (limits 2-8, zero-length and non-zero IDs) with NEW/RETIRE_CONNECTION_ID frames through a reordering/duplicating channel, Retire Prior To jumps, '
+            'conflicting frames, rotation by packets sent, path probing, expiry, handshake completion and close, against a set model and a real packetHandlerMap; non-trivial = a fault/adversarial op fired; distinct = distinct abstract histories',
+    'real_vs_stub': 'real: connIDManager, connIDGenerator, packetHandlerMap; stub: peer, channel, clock',
+    'assumptions': ['over-acceptance explained by path-probing IDs and the exact error code for conflicting frames are only noted (not stated by the property)'],
+    'level_text': 'seeded search over connection-ID histories against a set-based reference model with routing-table and reset-token bookkeeping',
+    'level_note': K_NOTE, 'technique': K_TECH,
+}
+PROPS['C20'] = {
+    'level': 'exploration', 'budget': {'quick': 60, 'thorough': 900},
+    'parts': [{'sim': 'congestion', 'share': 3}, {'sim': 'sph', 'share': 1}],
+    'rule': 'K:congestion: seeded histories of the real cubic sender (Reno and Cubic) + pacer + RTT stats over a simulated bottleneck (rate, queue, delay, random and burst loss, delayed and lost ACKs, app-limited and idle periods, MTU raises) '
+            'and over adversarial event sequences (arbitrary sizes and times); K:sph contributes the clause that new ack-eliciting data is only allowed while bytes in flight are below the window; '
+            'non-trivial = a loss/fault fired; distinct = distinct abstract histories',
+    'real_vs_stub': 'real: cubicSender, cubic, pacer, hybrid slow start, RTT stats, sentPacketHandler; stub: path, peer',
+    'assumptions': ['TimeUntilSend timing is only noted: the property bounds what the pacer authorises'],
+    'level_text': 'seeded search over congestion-control event histories with window-bound, reduction-per-window, growth-only-when-limited and pacing-budget oracles after every event',
+    'level_note': K_NOTE, 'technique': K_TECH,
+}
+
 NOT_APPLICABLE = {
     'C08': 'pure functions of a byte string / value (quantifier: inputs only): no schedule, clock, fault or interleaving for a simulator to control; deciding it is input generation (fuzzing), a different technique - DESIGN.md section 5',
     'C19': 'predicate over field lists and http.Header values (quantifier: inputs only): no schedule, clock, fault or interleaving - DESIGN.md section 5',
